@@ -1,8 +1,8 @@
 // C06 / C07 conformance harness: an in-process ReflectServer with StorageReflectSession sessions over socket pairs, pumped
-// single-threadedly with ServerProcessLoop(0).  Every pump runs under a watchdog (alarm()): a hang is written to the report as a
-// violation and the process _exit()s - it never becomes an endless run.
+// single-threadedly with ServerProcessLoop(0).  Every pump runs under a watchdog (SRV_WATCHDOG seconds of the process's CPU time, 24 times as
+// much wall-clock time): a hang is written to the report as a violation and the process _exit()s - it never becomes an endless run.
 //
-//   srv iso      <behaviours.ndjson> <report.ndjson> <seed> <allcuts 0|1>
+//   srv iso      <behaviours.ndjson> <report.ndjson> <seed> <pump every n-th byte of a byte-by-byte cut>
 //        C06, spec -> code.  Each input line is one behaviour of spec/ReflectorSafety/Isolation.tla (list of `last` records: a command of
 //        a session drawn from the hostile menu, or a departure) plus "cuts": how the departing session's byte stream is cut.
 //        After EVERY step: every OTHER session's projection (subtree + indices via the in-process walk AND via an observer's GETDATA,
@@ -10,13 +10,14 @@
 //        recomputed match counts, every client's mirror must equal what its subscriptions select; after a departure the departed
 //        session must have left no trace (EraseSession).  The whole observed state is also compared with the state the specification
 //        expects: others' part = violation, the acting session's own part = drift.
-//   srv isorand  <histories> <steps> <seed> <report.ndjson> <trace.ndjson> <ntraces>
+//   srv isorand  <menu.json> <histories> <steps> <seed> <report.ndjson> <trace.ndjson> <ntraces>
 //        C06, code -> spec.  Seeded random longer hostile histories; same monitors; the observed state after every step is logged
 //        for validation by TLC (IsoTrace.tla).
 //   srv oq       <cases.ndjson> <report.ndjson>
 //        C07, spec -> code.  OutQueue.tla's enumeration (queue state x command shape x filter shape) replayed with the victim's valve closed.
-//   srv hostile  <cases.ndjson> <report.ndjson> <seed> <seqlen> <clients 1|2>
+//   srv hostile  <cases.ndjson> <report.ndjson> <seed> <Messages per server> <sequences> <sequence length> [shard nshards]
 //        C07.  HostileSpace.tla's Messages injected one by one / in sequences, from one or two clients, valve closed for one of them.
+//   srv ctrleak  <report.ndjson>      directed case of the repaired finding F40 (a recycled DataNode must restart its child numbering)
 //   srv probe ...  measurements used while building
 #include "reflector/ReflectServer.h"
 #include "reflector/StorageReflectSession.h"
@@ -42,29 +43,28 @@ typedef mj::Value J;
 
 // ---------------------------------------------------------------------------------------------------------- report, watchdog
 static int g_repFd = -1, g_curFd = -1;
-static char g_curCase[8192]; static size_t g_curLen = 0;     // JSON text of the case being executed (for the watchdog / a crash)
 static char g_stage[256];                                     // what the server is processing right now
 static unsigned g_watchdogSecs = 5;
 static long g_cases = 0, g_violCases = 0;
+// the case being executed is kept, in full, in <report>.cur (for the watchdog / a crash: the check module reads it from there)
 static void RepLine(const std::string & s) {std::string t = s; t += '\n'; ssize_t r = write(g_repFd, t.data(), t.size()); (void) r;}
 static void RepJ(const J & v) {RepLine(mj::ToString(v));}
 static void SetCur(const std::string & s)
 {
-   g_curLen = std::min(s.size(), sizeof(g_curCase)-1); memcpy(g_curCase, s.data(), g_curLen); g_curCase[g_curLen] = 0;
-   if (g_curFd >= 0) { ssize_t r = pwrite(g_curFd, g_curCase, g_curLen, 0); (void) r; int q = ftruncate(g_curFd, (off_t) g_curLen); (void) q; }
+   if (g_curFd >= 0) { ssize_t r = pwrite(g_curFd, s.data(), s.size(), 0); (void) r; int q = ftruncate(g_curFd, (off_t) s.size()); (void) q; }
 }
 static void SetStage(const char * s) {strncpy(g_stage, s, sizeof(g_stage)-1); g_stage[sizeof(g_stage)-1] = 0;}
 static void OnAlarm(int sig)
 {
    // the event loop did not return within the watchdog: the server hangs on this input.  Report and leave.
    static char b[12000];
-   int n = snprintf(b, sizeof(b), "{\"violations\":[\"HANG: the server's event loop did not return within %u s of %s while %s\"],\"hang\":true,\"case\":%s}\n{\"summary\":true,\"hang\":true,\"cases\":%ld,\"violating_cases\":%ld}\n",
-                    (sig == SIGALRM) ? g_watchdogSecs*12 : g_watchdogSecs, (sig == SIGALRM) ? "wall-clock time" : "CPU time", g_stage, g_curLen ? g_curCase : "null", g_cases, g_violCases+1);
+   int n = snprintf(b, sizeof(b), "{\"violations\":[\"HANG: the server's event loop did not return within %u s of %s while %s\"],\"hang\":true}\n{\"summary\":true,\"hang\":true,\"cases\":%ld,\"violating_cases\":%ld}\n",
+                    (sig == SIGALRM) ? g_watchdogSecs*24 : g_watchdogSecs, (sig == SIGALRM) ? "wall-clock time" : "CPU time", g_stage, g_cases, g_violCases+1);
    ssize_t r = write(g_repFd, b, (size_t) n); (void) r;
    _exit(0);
 }
-// the watchdog: g_watchdogSecs of the process's CPU time (a spinning loop burns it; a machine busy with other work does not), and 12 times as much wall-clock time
-static void WatchdogOn(unsigned factor = 1) {struct itimerval it; memset(&it, 0, sizeof(it)); it.it_value.tv_sec = g_watchdogSecs*factor; (void) setitimer(ITIMER_PROF, &it, NULL); alarm(g_watchdogSecs*12*factor);}
+// the watchdog: g_watchdogSecs of the process's CPU time (a spinning loop burns it; a machine busy with other work does not), and 24 times as much wall-clock time
+static void WatchdogOn(unsigned factor = 1) {struct itimerval it; memset(&it, 0, sizeof(it)); it.it_value.tv_sec = g_watchdogSecs*factor; (void) setitimer(ITIMER_PROF, &it, NULL); alarm(g_watchdogSecs*24*factor);}
 static void WatchdogOff() {struct itimerval it; memset(&it, 0, sizeof(it)); (void) setitimer(ITIMER_PROF, &it, NULL); alarm(0);}
 static double Now() {struct timespec ts; clock_gettime(CLOCK_MONOTONIC, &ts); return ts.tv_sec + ts.tv_nsec*1e-9;}
 
@@ -170,6 +170,14 @@ static bool ReadCases(const char * path, std::vector<J> & out)
    std::string line; while (mj::ReadLine(f, line)) {if (line.empty()) continue; J v; if (!mj::Parse(line, v)) {fprintf(stderr, "bad JSON line in %s\n", path); fclose(f); return false;} out.push_back(v);}
    fclose(f); return true;
 }
+// one case per line, parsed when it is its turn (the parsed form of a behaviour with its expected states is ~100 times the size of its text)
+struct CaseStream {
+   FILE * f; explicit CaseStream(const char * path) : f(fopen(path, "r")) {} ~CaseStream() {if (f) fclose(f);}
+   bool Ok() const {return f != NULL;}
+   bool Next(J & v) {std::string line; while (mj::ReadLine(f, line)) {if (line.empty()) continue; if (!mj::Parse(line, v)) {fprintf(stderr, "bad JSON line\n"); exit(12);} return true;} return false;}
+};
+static bool ReadLines(const char * path, std::vector<std::string> & out) {FILE * f = fopen(path, "r"); if (!f) return false; std::string line; while (mj::ReadLine(f, line)) if (!line.empty()) out.push_back(line); fclose(f); return true;}
+static J ParseLine(const std::string & l) {J v; if (!mj::Parse(l, v)) {fprintf(stderr, "bad JSON line\n"); exit(12);} return v;}
 static bool OpenReport(const char * path)
 {
    g_repFd = open(path, O_WRONLY|O_CREAT|O_TRUNC, 0644); if (g_repFd < 0) return false;
